@@ -1212,9 +1212,10 @@ class PyCdlib:
                         # The end of the file is beyond the size of the ISO.
                         # Since this can't be true, truncate the file size.
                         if new_record.inode is not None:
-                            new_record.inode.data_length = iso_file_length - extent_to_use * self.logical_block_size
-                            for rec, is_pvd in new_record.inode.linked_records:
-                                rec.set_data_length(new_end)
+                            truncated_len = max(0, iso_file_length - extent_to_use * self.logical_block_size)
+                            new_record.inode.data_length = truncated_len
+                            for rec, pvd_unused in new_record.inode.linked_records:
+                                rec.set_data_length(truncated_len)
                     else:
                         # The new end is still within the file size, but the PVD
                         # size is wrong.  Set the lastbyte appropriately, which
